@@ -183,6 +183,45 @@ def run(rep):
         items.append(dict(kind="serialize-tree", line="tree " + es, req={"fn": "helpers", "what": "tree", "es": es}, ents=t["entries"]))
     tres = compare(rep, PROP, [dict(it, line=it["line"], req=it["req"]) for it in items], impl=impl, model=model, what="serialize_tree")
     # (the model appends its sortedness verdict; the implementation side returns bytes only)
+    # author / committer / tagger lines vs Model/TimeEntry.v: zones (git's spellings, the minus flag, non-minute offsets),
+    # whole lines, and parsing of what was formatted
+    hz = lambda n: ("-%x" % -n) if n < 0 else "%x" % n
+    items = []
+    zones = [0, 60, -60, 1800, -1800, 3600, -3600, 19800, 20700, -34200, 45900, 50400, -43200, 86400, 360000, -360000, 59, 61, -1, 3601, 2 ** 40 * 60, -(2 ** 33) * 60]
+    zones += [rng.randrange(-900, 900) * 60 for _ in range(20 if not thorough else 400)] + [rng.randrange(-10 ** 6, 10 ** 6) for _ in range(10 if not thorough else 200)]
+    for z in zones:
+        for neg in ("0", "1"):
+            items.append(dict(kind="format-timezone", line="tzfmt %s %s" % (hz(z), neg), req={"fn": "helpers", "what": "tzfmt", "off": hz(z), "neg": neg}, z=z, neg=neg))
+    res = compare(rep, PROP, items, impl=impl, model=model, what="format_timezone")
+    items = []
+    for it, m, r in res:
+        v = r.get("v") if isinstance(r, dict) else None
+        if v and v != "valueerror":
+            items.append(dict(kind="parse-timezone", line="tzparse " + v, req={"fn": "helpers", "what": "tzparse", "t": v}, want="%s %s" % (hz(it["z"]), it["neg"] if it["z"] >= 0 else "0"), git=(it["neg"] == "0" or it["z"] == 0)))
+    for t in [b"+0000", b"-0000", b"+0530", b"-0930", b"+1400", b"--700", b"--030", b"+-100", b"+99999", b"+1", b"-1", b"+", b"0100", b"+01:00", b"+0x10", b"+0060", b"+0099"]:
+        items.append(dict(kind="parse-timezone-raw", line="tzparse " + hx(t), req={"fn": "helpers", "what": "tzparse", "t": hx(t)}, want=None, git=False))
+    for it, m, r in compare(rep, PROP, items, impl=impl, model=model, what="parse_timezone"):
+        if it["want"] is not None and it["git"] and r.get("v") != it["want"]:
+            rep.fail("timezone-roundtrip", "parse_timezone(format_timezone(offset, neg)) is not (offset, neg)", it["req"], got=str(r.get("v")), want=it["want"])
+    items = []
+    persons = [b"A U Thor <a@example.com>", b"<>", b"a <b> c <d>", b"x> y <z>", b"\xc3\xa9 <\xff>", b"a  <b>"]
+    for _ in range(60 if not thorough else 1500):
+        p, t = rng.choice(persons), rng.choice([0, 1, -1, 1700000000, 2 ** 32, 2 ** 63, -(2 ** 40), rng.randrange(-10 ** 12, 10 ** 12)])
+        z, neg = rng.choice([(0, "0"), (0, "1"), (3600, "0"), (-5400, "0"), (20700, "0"), (rng.randrange(-900, 900) * 60, "0")])
+        items.append(dict(kind="format-time-entry", line="tefmt %s %s %s %s" % (hx(p), hz(t), hz(z), neg),
+                          req={"fn": "helpers", "what": "tefmt", "person": hx(p), "time": hz(t), "off": hz(z), "neg": neg}, p=p, t=t, z=z, neg=neg))
+    res = compare(rep, PROP, items, impl=impl, model=model, what="format_time_entry")
+    items = []
+    for it, m, r in res:
+        v = r.get("v") if isinstance(r, dict) else None
+        if v and v != "valueerror":
+            want = "ok %s %s %s %s" % (hx(it["p"]), hz(it["t"]), hz(it["z"]), it["neg"]) if it["p"].endswith(b">") else None
+            items.append(dict(kind="parse-time-entry", line="teparse " + v, req={"fn": "helpers", "what": "teparse", "v": v}, want=want))
+    for t in [b"", b"no date", b"A <a>", b"A <a> ", b"A <a> 12", b"A <a> 12 +0100", b"A <a> x +0100", b"A <a> 12 0100", b"A <a> 1 2 +0100", b"> 1 +0000"]:
+        items.append(dict(kind="parse-time-entry-raw", line="teparse " + (hx(t) if t else "_"), req={"fn": "helpers", "what": "teparse", "v": hx(t) if t else "-"}, want=None))
+    for it, m, r in compare(rep, PROP, items, impl=impl, model=model, what="parse_time_entry"):
+        if it["want"] is not None and r.get("v") != it["want"]:
+            rep.fail("time-entry-roundtrip", "parse_time_entry(format_time_entry(person, time, zone)) is not (person, time, zone)", it["req"], got=str(r.get("v")), want=it["want"])
     # sequences of setter calls / observations on live objects
     reqs = []
     for _ in range(120 if not thorough else 3000):
